@@ -12,6 +12,21 @@ pub fn deep_doc(kind: &str, depth: usize, closed: bool) -> String {
             for _ in 0..depth { s.push('['); }
             if closed { for _ in 0..depth { s.push(']'); } }
         }
+        // a COMPLETED deep value followed by a syntax error: after the whole document ("tail"), or
+        // inside an enclosing array whose next item is malformed ("mid"). The rejected value is
+        // disposed of inside the parser, on its stack (`closed` = the well-formed twin)
+        "tail" => {
+            for _ in 0..depth { s.push('['); }
+            for _ in 0..depth { s.push(']'); }
+            if !closed { s.push('x'); }
+        }
+        "mid" => {
+            s.push_str("[1,");
+            for i in 0..depth { s.push_str(if i % 2 == 0 { "[" } else { "{\"a\":" }); }
+            s.push_str("null");
+            for i in (0..depth).rev() { s.push_str(if i % 2 == 0 { "]" } else { "}" }); }
+            s.push_str(if closed { ",2]" } else { ",}" });
+        }
         "obj" => {
             for _ in 0..depth { s.push_str("{\"k\":"); }
             if closed { s.push_str("0"); for _ in 0..depth { s.push('}'); } }
@@ -152,7 +167,7 @@ pub fn exec(rest: &str, out: &mut Out) -> (String, bool) {
 pub fn gen(out: &mut Out, thorough: bool) {
     let mut l = |s: String, out: &mut Out| crate::exec_line(&s, out);
     let depths: &[usize] = if thorough { &[1000, 10_000, 100_000, 500_000, 1_000_000, 2_000_000] } else { &[1000, 20_000, 200_000] };
-    for kind in ["arr", "obj", "mixed", "ws", "pretty", "long"] {
+    for kind in ["arr", "obj", "mixed", "ws", "pretty", "long", "tail", "mid"] {
         for &d in depths {
             for closed in ["1", "0"] {
                 l(format!("c03 deep {} {} {}", kind, d, closed), out);
